@@ -152,6 +152,14 @@ pub fn run(ctx: &Ctx) {
                     check_cli(ctx, &bin, frames)
                 });
             });
+            // long batches (more than 256, more than 1024 records)
+            let n = ctx.tier.pick(16u32, 160u32);
+            (0..shards).into_par_iter().for_each(|s| {
+                vcore::ev::run_prop_shrink(ctx, &format!("cli-long-{s}"), n / shards, 40, proptest::collection::vec(vcore::gen::frame().prop_map(|(_, f)| f), 257..1300), |frames| {
+                    ctx.class("long batch (257-1299 frames) through the real decode1090 binary");
+                    check_cli(ctx, &bin, frames)
+                });
+            });
             // every base shape once
             let all: Vec<Vec<u8>> = shapes.iter().enumerate().map(|(i, sh)| {
                 let mut r = SplitMix::new(h64(&(ctx.seed, "c07-cli", i)));
@@ -227,8 +235,27 @@ pub fn check_cli(ctx: &Ctx, bin: &str, frames: &[Vec<u8>]) -> Check {
     if accepted.is_empty() {
         return Ok(());
     }
+    // half of the batches (and every long one) are written with `-o file` instead of to stdout
+    let to_file = h64(&frames) % 2 == 0 || frames.len() > 200;
+    let dir = vcore::ev::out_root().join(".tmp");
+    let _ = std::fs::create_dir_all(&dir);
+    let outpath = dir.join(format!("c07-out-{}-{:?}.jsonl", std::process::id(), std::thread::current().id()));
+    let _ = std::fs::remove_file(&outpath);
+    let output_args: Vec<String> = if to_file { vec!["-o".into(), outpath.to_str().unwrap().into()] } else { vec![] };
+    let collect = |out: &std::process::Output| -> String {
+        if to_file {
+            let t = std::fs::read_to_string(&outpath).unwrap_or_default();
+            let _ = std::fs::remove_file(&outpath);
+            t
+        } else {
+            String::from_utf8_lossy(&out.stdout).to_string()
+        }
+    };
+    if to_file {
+        ctx.class("decode1090 batch written with -o file");
+    }
     // 1. argument mode
-    let out = std::process::Command::new(bin).args(accepted.iter().map(|(f, _)| hex::encode(f))).output();
+    let out = std::process::Command::new(bin).args(&output_args).args(accepted.iter().map(|(f, _)| hex::encode(f))).output();
     let Ok(out) = out else {
         eprintln!("INCONCLUSIVE: decode1090 could not be started");
         std::process::exit(2);
@@ -237,7 +264,7 @@ pub fn check_cli(ctx: &Ctx, bin: &str, frames: &[Vec<u8>]) -> Check {
     if !out.status.success() {
         return Err(fail("aborted", format!("decode1090 <hex>... exited with {:?}: {stderr}", out.status.code())));
     }
-    let text = String::from_utf8_lossy(&out.stdout).to_string();
+    let text = collect(&out);
     let lines: Vec<&str> = text.lines().collect();
     if lines.len() != accepted.len() {
         return Err(fail("line-count", format!("{} lines for {} accepted frames", lines.len(), accepted.len())));
@@ -250,8 +277,6 @@ pub fn check_cli(ctx: &Ctx, bin: &str, frames: &[Vec<u8>]) -> Check {
         jsonck::parse(l).map_err(|e| fail("malformed", format!("{e}: {l}")))?;
     }
     // 2. file mode
-    let dir = vcore::ev::out_root().join(".tmp");
-    let _ = std::fs::create_dir_all(&dir);
     let path = dir.join(format!("c07-{}-{:?}.jsonl", std::process::id(), std::thread::current().id()));
     {
         let mut fh = std::fs::File::create(&path).expect("scratch file");
@@ -259,7 +284,7 @@ pub fn check_cli(ctx: &Ctx, bin: &str, frames: &[Vec<u8>]) -> Check {
             writeln!(fh, "{}", json!({"timestamp": 1_700_000_000.0 + i as f64 * 0.25, "frame": hex::encode(f)})).unwrap();
         }
     }
-    let out = std::process::Command::new(bin).args(["-i", path.to_str().unwrap(), "-d", "0"]).output();
+    let out = std::process::Command::new(bin).args(["-i", path.to_str().unwrap(), "-d", "0"]).args(&output_args).output();
     let _ = std::fs::remove_file(&path);
     let Ok(out) = out else {
         eprintln!("INCONCLUSIVE: decode1090 could not be started");
@@ -268,7 +293,7 @@ pub fn check_cli(ctx: &Ctx, bin: &str, frames: &[Vec<u8>]) -> Check {
     if !out.status.success() {
         return Err(fail("aborted", format!("decode1090 -i exited with {:?}: {}", out.status.code(), String::from_utf8_lossy(&out.stderr).chars().take(300).collect::<String>())));
     }
-    let text = String::from_utf8_lossy(&out.stdout).to_string();
+    let text = collect(&out);
     let lines: Vec<&str> = text.lines().collect();
     // from_bytes also accepts over-long inputs; judge the lines that belong to exact-length accepted frames, in order
     let mut li = 0usize;
